@@ -229,8 +229,8 @@ class Session:
             n = f["name"]
             if not f["rand"] or n.startswith("s2."):
                 continue
-            if self.mode.get(n, True):
-                out.append(f)
+            if self.mode.get(n, True) and (not n.startswith("s1.") or self.mode.get("s1", True)):
+                out.append(f)       # (a field of the sub-object s1 is random only while s1's own rand_mode is on)
         return out
 
     def V(self, kind, detail, extra):
@@ -249,8 +249,12 @@ class Session:
             self.info["pending_edit"] = True
             return []
         if k == "mode":
-            rawp(vsc, self.obj, op[1]).rand_mode = bool(op[2])
-            if op[1] in TOGGLE:
+            try:
+                rawp(vsc, self.obj, op[1]).rand_mode = bool(op[2])
+            except Exception as e:
+                ei = flat.defuse(e)
+                return [self.V("library_exception", "rand_mode assignment: " + ei.sig, "rand_mode of %s = %s raised %r" % (op[1], bool(op[2]), ei))]
+            if op[1] in TOGGLE or op[1] == "s1":
                 self.mode[op[1]] = bool(op[2])
             self.info["pending_edit"] = True
             self.info["toggled"] = True
@@ -383,7 +387,7 @@ def op_assign(d):
 
 @hyp.composite
 def op_mode(d):
-    return ["mode", d.choice(TOGGLE + NONRAND_TOGGLE) if d.chance(35) else d.choice(TOGGLE), d.randint(0, 1)]
+    return ["mode", d.choice(TOGGLE + NONRAND_TOGGLE + ["s1", "s1"]) if d.chance(35) else d.choice(TOGGLE), d.randint(0, 1)]
 
 
 @hyp.composite
